@@ -85,13 +85,16 @@ func DecryptMessageWithTempKeys(msg []byte, nonceSecond, nonceServer *big.Int) [
 	check(err)
 
 	// decodedWithHash := SHA1(answer) + answer + (0-15 рандомных байт); длина должна делиться на 16;
-	decodedHash := decodedWithHash[:20]
-	decodedMessage := decodedWithHash[20:]
+	const hashLen = 20
+	if len(decodedWithHash) >= hashLen {
+		decodedHash := decodedWithHash[:hashLen]
+		decodedMessage := decodedWithHash[hashLen:]
 
-	// режем последние 0-15 байт ориентируюясь по хешу
-	for i := len(decodedMessage) - 1; i > len(decodedMessage)-16; i-- {
-		if bytes.Equal(decodedHash, dry.Sha1Byte(decodedMessage[:i])) {
-			return decodedMessage[:i]
+		// режем последние 0-15 байт ориентируюясь по хешу
+		for i := len(decodedMessage); i >= 0 && i > len(decodedMessage)-16; i-- {
+			if bytes.Equal(decodedHash, dry.Sha1Byte(decodedMessage[:i])) {
+				return decodedMessage[:i]
+			}
 		}
 	}
 
@@ -105,7 +108,7 @@ func EncryptMessageWithTempKeys(msg []byte, nonceSecond, nonceServer *big.Int) [
 	// добавляем остаток рандомных байт в сообщение, что бы суммарно оно делилось на 16
 	totalLen := len(hash) + len(msg)
 	overflowedLen := totalLen % 16
-	needToAdd := 16 - overflowedLen
+	needToAdd := (16 - overflowedLen) % 16
 
 	msg = bytes.Join([][]byte{hash, msg, dry.RandomBytes(needToAdd)}, []byte{})
 	return encryptMessageWithTempKeys(msg, nonceSecond, nonceServer)
